@@ -193,6 +193,28 @@ def run(case):
             dd, exc = libcall(dtw.distance_fast, a1, a2, use_ndim=(nd > 1), **ckw)
             if exc is None and not ref.close(dd, d):
                 res.fail('c-full:distance-routine', 'warping_paths_fast distance %r, distance_fast() %r' % (d, dd))
+    # (b2) the same matrix asked for through warping_paths(use_c=True)
+    got, exc = libcall(dtw.warping_paths, a1, a2, psi_neg=case['psi_neg'], keep_int_repr=case['keep_int_repr'],
+                       use_c=True, use_ndim=(nd > 1), **ckw)
+    if exc:
+        res.fail('c-full(use_c):' + exc, 'dtw.warping_paths(use_c=True) raised')
+    else:
+        d, M = got
+        check_matrix(res, 'c-full(use_c)', case, float(d), [[float(x) for x in row] for row in np.asarray(M)], exp_d, cells)
+    # (b3) the extension's own entry point writing into a caller-supplied matrix that is not freshly inf-filled (a buffer
+    # reused from an earlier call): every cell of the result must be written
+    from dtaidistance import dtw_cc
+    dirty = np.full((l1 + 1, l2 + 1), [0.0, 7.5, -1.0][(l1 + 2 * l2) % 3], dtype=np.double)
+    ekw = {k: (0 if v is None else v) for k, v in ckw.items()}
+    ekw['psi'] = gen.psi_to_lib(case['psi']) or 0
+    if nd == 1:
+        got, exc = libcall(dtw_cc.warping_paths, dirty, a1, a2, case['psi_neg'], case['keep_int_repr'], **ekw)
+    else:
+        got, exc = libcall(dtw_cc.warping_paths_ndim, dirty, a1, a2, case["psi_neg"], case["keep_int_repr"], **ekw)
+    if exc:
+        res.fail('c-full(reused-buffer):' + exc, 'dtw_cc.warping_paths raised')
+    else:
+        check_matrix(res, 'c-full(reused-buffer)', case, float(got), [[float(x) for x in row] for row in dirty], exp_d, cells)
     # (c) C compact + expansion, (d) + slice expansion  -- through ctypes, buffers of exactly the advertised size
     got, exc = libcall(dtw.warping_paths_fast, a1, a2, psi_neg=case['psi_neg'], keep_int_repr=case['keep_int_repr'],
                        compact=True, use_ndim=(nd > 1), **ckw)
@@ -283,7 +305,7 @@ def legs(tier):
 
 
 def _c_bucket(bucket):
-    return bucket.startswith(('c-full:', 'c-compact:', 'c-slice:', 'border:'))
+    return bucket.startswith(('c-full:', 'c-full(use_c):', 'c-full(reused-buffer):', 'c-compact:', 'c-slice:', 'border:'))
 
 
 def _region_psi_band(case, bucket, obs=None):
